@@ -983,7 +983,8 @@ impl<A: Flavor> World<A> {
                 res = "ok".into();
             }
             Op::Reopen { mode, cap, create, pb, flags } => {
-                if self.cfg.backend == Backend::File {
+                // a file marked remove-on-drop disappears when it is closed: there is nothing to reopen
+                if self.cfg.backend == Backend::File && !self.remove_on_drop {
                     self.do_reopen(*mode, *cap, *create, *pb, *flags)?;
                     res = "ok".into();
                 }
@@ -1382,7 +1383,7 @@ impl<A: Flavor> World<A> {
             0 => {
                 ensure!(
                     post.discarded as u64 == pre.discarded as u64 + bcap as u64,
-                    "C20", "small-release-accounting",
+                    "C13|C20", "small-release-accounting",
                     "{what} of {bcap} bytes produced no segment: discarded() {} -> {} (expected +{bcap})", pre.discarded, post.discarded
                 );
                 self.dead.push((boff, boff + bcap));
@@ -1400,6 +1401,22 @@ impl<A: Flavor> World<A> {
             _ => return Err(viol!("C13", "release-many-nodes", "{what} of [{boff}, {}) created several nodes {added:?}", boff + bcap)),
         }
         Ok(())
+    }
+
+    /// The allocator state as the FILE holds it right now (a shared mapping is the page cache), read through a
+    /// throw-away read-only open. Used where no arena value is left to ask: the drop of the last holder.
+    fn file_snap(&self) -> Option<Snap> {
+        let path = self.path.as_ref()?;
+        let off = self.cfg.off_pages as usize * self.page;
+        let seen = self.unmounts.get();
+        let o = self.opts.with_read(true).with_offset(off as u64);
+        let a: A = unsafe { o.map::<A, _>(path) }.ok()?;
+        let fl = a.fl();
+        let s = Snap { allocated: a.allocated(), discarded: a.discarded(), remaining: a.remaining(), capacity: a.capacity(), minseg: a.minimum_segment_size(), refs: 0, fl: fl.nodes, fl_complete: fl.complete };
+        drop(a);
+        // the throw-away arena's own release is not part of the case
+        self.unmounts.set(seen);
+        Some(s)
     }
 
     fn check_unmounts(&self, when: &str) -> R {
@@ -1811,7 +1828,7 @@ impl<A: Flavor> World<A> {
             _ => file_len - off,
         };
         let want_cap = if self.ro { want_cap.min(file_len - off) } else { want_cap };
-        ensure!(post.capacity == want_cap, "C05", "reopen-capacity", "{what} capsel {capsel}: capacity() {} expected {want_cap} (file len {file_len} -> {len_now}, offset {off})", post.capacity);
+        ensure!(post.capacity == want_cap, "C05|C16", "reopen-capacity", "{what} capsel {capsel}: capacity() {} expected {want_cap} (file len {file_len} -> {len_now}, offset {off})", post.capacity);
         if self.dirtied.len() < post.capacity {
             self.dirtied.resize(post.capacity, false);
         }
@@ -1857,10 +1874,10 @@ impl<A: Flavor> World<A> {
             }
         }
         // handles (borrowed ones must go before their arena value)
-        let mut objs: Vec<(HBox, usize, Option<u64>, bool)> = Vec::new();
+        let mut objs: Vec<(HBox, usize, (usize, usize), bool)> = Vec::new();
         for h in self.hs.iter_mut() {
             if let Some(o) = h.obj.take() {
-                objs.push((o, h.embeds, h.drop_id, h.detached || order == 2));
+                objs.push((o, h.embeds, (h.boff, h.bcap), h.detached || order == 2));
             }
         }
         if order == 1 {
@@ -1869,11 +1886,18 @@ impl<A: Flavor> World<A> {
         let arenas_left = self.arenas.iter().filter(|a| a.is_some()).count();
         let n_owned = objs.iter().filter(|o| o.1 > 0).count();
         let mut holders = arenas_left + n_owned;
-        for (o, embeds, _drop_id, _det) in objs {
+        for (o, embeds, (boff, bcap), det) in objs {
+            // an owned handle that is the last holder of a file-backed arena: once it is gone there is no arena value
+            // left to observe, but its release must still have happened - the file shows it (C13: "releases precisely
+            // its own buffer extent, once", "an owned handle releases exactly what the borrowed handle would")
+            let mut persisted: Option<Snap> = None;
             if embeds > 0 {
                 if holders == 1 {
                     self.expected_unmounts += 1;
                     self.classes.insert("owned-handle-was-last");
+                    if !det && bcap > 0 && !self.ro && self.cow.is_none() && !self.remove_on_drop && self.cfg.backend == Backend::File {
+                        persisted = self.file_snap();
+                    }
                 }
                 holders -= 1;
                 if self.arenas.first().map(|a| a.is_none()).unwrap_or(true) {
@@ -1882,6 +1906,12 @@ impl<A: Flavor> World<A> {
             }
             guard("drop(handle)", "C13", move || drop(o))?;
             self.check_unmounts("dropping a handle at teardown")?;
+            if let Some(pre) = persisted {
+                if let Some(post) = self.file_snap() {
+                    self.classes.insert("last-holder-release-checked-in-file");
+                    self.check_release_effect(&pre, &post, boff, bcap, "drop of the last holder (an owned handle), as persisted in the file")?;
+                }
+            }
         }
         let ixs = self.live_arena_ixs();
         let ixs: Vec<usize> = if order == 2 { ixs.into_iter().rev().collect() } else { ixs };
